@@ -34,10 +34,17 @@ class Unit:
                  abstract=None, module_consts=None, safety=('index', 'div'), trusted=False, short=None,
                  doc='', while_bound=6, fresh_attr=None, canary=None, timeout_ms=8000, defaults=None,
                  exec_cls=None, self_class=None, cases=None, store='ite', sum_split=False, native_obj=None,
-                 native_call=None):
+                 native_call=None, variant=None, yields=None):
         self.props = [props] if isinstance(props, str) else list(props)
         self.qualname = qualname
-        self.short = short or qualname.split(':')[1]
+        # several units may put the same function under contract (e.g. Contribution.prepare once per subclass whose
+        # prepare_each it drives): they are told apart by `variant`; callers see the one without a variant
+        self.variant = variant
+        self.key = qualname if variant is None else '%s@%s' % (qualname, variant)
+        self.short = short or (qualname.split(':')[1] + ('' if variant is None else '@' + variant))
+        # generator units: yields(c, v0, v, k, value) -> named clauses that must hold at the k-th yield (v: the
+        # state at that moment, value: what the consumer receives) -- the yield invariant of DESIGN 2.8
+        self.yields = yields
         self.params, self.pre, self.post, self.raises_spec = params, pre, post, raises
         self.frame, self.frame_attrs = list(frame), list(frame_attrs)
         self.result = result
@@ -70,9 +77,9 @@ class Unit:
             self.native = lambda c, p: native_call(c, native_obj(c, p), p)
         self._view0 = None
         self._fndef = None
-        if qualname in REGISTRY:
-            raise EngineError('duplicate unit %s' % qualname)
-        REGISTRY[qualname] = self
+        if self.key in REGISTRY:
+            raise EngineError('duplicate unit %s' % self.key)
+        REGISTRY[self.key] = self
 
     # -- source
     def locate(self):
@@ -125,6 +132,14 @@ class Bounded:
         self.props = [props] if isinstance(props, str) else list(props)
         self.name, self.run, self.bound, self.replay, self.doc = name, run, bound, replay, doc
         BOUNDED.append(self)
+
+
+class GenTrace:
+    """what a native harness returns for a generator unit: values[k] is a COPY of what the consumer received at
+    the k-th yield, states[k] the inputs-shaped snapshot of the object state at that moment"""
+
+    def __init__(self, values, states):
+        self.values, self.states = list(values), list(states)
 
 
 def materialize(c, st, v):
@@ -221,18 +236,22 @@ def build_obligations(unit, c):
             raise EngineError('unit %s: params() does not supply %s' % (unit.short, n))
     outs = ex.run(mi, fn, cls, st, None)
     spec = unit.raises_spec(c, v0) if unit.raises_spec else {}
+    import ast as _ast
+    is_gen = any(isinstance(x, (_ast.Yield, _ast.YieldFrom)) for x in _ast.walk(fn))
     npath = 0
     for s, k, p in outs:
         npath += 1
         v1 = View(c, env, s.heap)
         if k == 'return':
             ys = [y for tag, y in s.trace if tag == 'yield']
-            if ys and p is None:
+            if p is None and (ys or is_gen):
                 p = ys              # a generator: its result is the list of yielded values
             for exc, cond in spec.items():
                 ex.oblige('raises.%s.not' % exc, s, c.Not(cond), None)
             if unit.post:
                 ret = ex.wrap_ret(p, s)
+                c.trace = [y for tag, y in s.trace if tag == 'ev']      # effect trace (ghost) for effect-trace contracts
+                c.raw = {'ret': p, 'state': s, 'env': env}              # identities (heap references) for such contracts
                 for name, g in _named(unit.post(c, v0, v1, ret)):
                     ex.oblige('post.%s' % name, s, g, None)
             # frame: every parameter array cell outside the frame is unchanged
@@ -484,6 +503,10 @@ def native_check(unit, values, obj=None, keep=None):
                 ret, after = native(c, raw)
     except Exception as e:          # the real function raised
         exc = e
+    c.trace = after.pop('__trace__', None) if isinstance(after, dict) else None
+    gen_states = None
+    if isinstance(ret, GenTrace):
+        gen_states, ret = ret.states, ret.values
     must = [k for k, g in spec.items() if g]
     if exc is not None:
         names = [k.__name__ for k in type(exc).__mro__]
@@ -497,6 +520,17 @@ def native_check(unit, values, obj=None, keep=None):
                 'observed': 'real function returned normally where the contract requires %s' % must[0]}
     failed = []
     detail = {}
+    if unit.yields and gen_states is not None:
+        try:
+            for k, (val, stt) in enumerate(zip(ret, gen_states)):
+                for nm, g in _named(unit.yields(c, v0, CView(concretize_params(stt)), k, val)):
+                    if not g:
+                        failed.append('yield.%s' % nm)
+        except Exception as e:
+            return {'status': 'violation', 'failed': ['yield.<not evaluable>'],
+                    'observed': 'yield invariant not evaluable on the yielded value: %r' % (e,)}
+        if failed:
+            return {'status': 'violation', 'failed': failed, 'observed': 'yielded %s' % _short(ret)}
     if unit.post:
         try:
             for k, g in _named(unit.post(c, v0, CView(after), ret)):
